@@ -1,0 +1,9 @@
+//go:build verif
+
+package textinput
+
+// Hook for the verification harness in /verif (property C17).  Add-only, guarded
+// by the build tag "verif": a read-only snapshot of the unexported scroll state.
+
+// VerifOffset returns the horizontal scroll offset (in characters).
+func (m *Model) VerifOffset() int { return m.offset }
